@@ -13,7 +13,8 @@ BUDGET = 200_000
 MIN_EVALUATIONS = {"quick": 20000, "thorough": 20000}  # fewer oracle evaluations than this means the workload collapsed: inconclusive
 RULE = ("for every elementary/string/bit-string type and generated Array/Struct/StructTag/FixedSizeString/n_bytes composition: "
         "encode(out-of-domain value) over the classes {range+-1, 2^64, None, wrong python type, wrong container shape, unencodable "
-        "character, over-long for the prefix, too few elements, wrong bit count, missing key} must raise DataError; decode of every "
+        "character, over-long for the prefix, too few elements, wrong bit count, missing key} must raise DataError - also float / Decimal / "
+        "Fraction values numerically equal to a valid value that was encoded just before (rejection may not depend on history); decode of every "
         "truncation point of valid encodings, the empty buffer and random bytes must raise DataError whenever the reference parser "
         "runs out of bytes (BufferEmptyError only when the buffer ends exactly where a value starts); T[None] over whole elements "
         "must return exactly those elements; every call runs under a 200k line-event budget (sys.monitoring). "
